@@ -8,6 +8,7 @@ CONSTANTS
   HdrKinds = {"plain", "mixedcase", "empty", "multi", "long"}
   Statuses = {200, 204, 404, 500}
   RespBodyLens = {0, 5, 65536}
+  Retries = {0, 1}
   Defects = {"UnescapePath"}
 SPECIFICATION Spec
 INVARIANTS UriPreserved
